@@ -931,8 +931,126 @@ def r10_front_end_memory_is_linear(ctx):
     ctx.floor("buffers reserved by the scanner", m, 1)
 
 
+def r12_checker_indexes_follow_a_length_test(ctx):
+    """The static checker looks at `args.args[k]` to type-check an argument.  A wrong argument count is reported a few lines
+    earlier but does not stop the checker, so each such index needs its own test that the argument exists: is_empty() == false
+    for k = 0, or a comparison that puts the length above k.  (`c.env()` with the test written `<= 2` indexes an empty list:
+    the checker panics instead of reporting the count.)"""
+    n = 0
+    for fn in sorted(ctx.lib.in_file("src/resolver.rs"), key=lambda f: (f.line, f.id)):
+        for b in sorted(fn.live):
+            t = fn.blocks[b]["t"]
+            if t["k"] != "assert" or t.get("kind") != "BoundsCheck":
+                continue
+            ln = ne(fn.expr(t["ops"][0], 6))
+            ix = ne(fn.expr(t["ops"][1], 6))
+            if not (ix[0] == "const" and isinstance(ix[1], int)):
+                continue
+            k = ix[1]
+            n += 1
+            ctx.touch(fn)
+            arr = sh(ln).replace("len(", "").rstrip(")")
+            ok = False
+            for S, al in fn.constraints(b):
+                si = fn.switch_info(S)
+                d = sh(ne(fn.deep(fn.blocks[S]["t"]["d"])))
+                if si["kind"] == "call" and (si["callee"] or "").split("::")[-1] == "is_empty" and arr in d and set(al) == {0} and k == 0 and not (si.get("threaded") and si.get("weak_label") == 0):
+                    ok = True
+            for op, a, bb, S in cmp_facts(fn, b):
+                for (o, x, y) in ((op, a, bb), ({"Lt": "Gt", "Le": "Ge", "Gt": "Lt", "Ge": "Le", "Eq": "Eq", "Ne": "Ne"}[op], bb, a)):
+                    if sh(x) == sh(ln) and y[0] == "const" and isinstance(y[1], int):
+                        if (o == "Ge" and y[1] >= k + 1) or (o == "Gt" and y[1] >= k) or (o == "Eq" and y[1] >= k + 1) or (o == "Ne" and y[1] == 0 and k == 0):
+                            ok = True
+            if not ok and k == 0:
+                # an or-pattern with a guard (`A | B if !args.is_empty()`) tests once per alternative: the arm body is entered
+                # from several tests, none of which dominates it - every way in must be such a test
+                dec = [(S, lab) for S, lab in fn.deciding(b) if not fn.dominates(S, b) or True]
+                entries = [(S, lab) for S, lab in dec if fn.switch_info(S)["kind"] == "call" and (fn.switch_info(S)["callee"] or "").split("::")[-1] == "is_empty"]
+                preds = {p_ for p_, _l in fn.pred[b]}
+                hops = 0
+                frontier = {b}
+                # walk back over straight-line blocks to the tests that feed the body
+                feeders = set()
+                seenb = set()
+                st_ = [b]
+                while st_ and hops < 40:
+                    x = st_.pop()
+                    hops += 1
+                    if x in seenb:
+                        continue
+                    seenb.add(x)
+                    for p_, lab in fn.pred[x]:
+                        if fn.blocks[p_]["t"]["k"] == "switch":
+                            feeders.add((p_, lab))
+                        else:
+                            st_.append(p_)
+                if feeders and all(fn.switch_info(S)["kind"] == "call" and (fn.switch_info(S)["callee"] or "").split("::")[-1] == "is_empty" and lab == 0 and arr in sh(ne(fn.deep(fn.blocks[S]["t"]["d"]))) for S, lab in feeders):
+                    ok = True
+            ordn = sum(1 for r in ctx.records if r["rule"] == ctx.rule and r["instance"].startswith("checker-index|%s|%s[%d]#" % (parent_fn(fn.id).split("::")[-1], arr, k)))
+            key = "checker-index|%s|%s[%d]#%d" % (parent_fn(fn.id).split("::")[-1], arr, k, ordn + 1)
+            if ok:
+                ctx.ok(key, fn.where(b), "the element is known to exist")
+            else:
+                ctx.bad(key.rsplit("#", 1)[0] + "|unguarded", fn.where(b), "the checker reads `%s[%d]` on a path on which nothing says the list has that many elements (%s): a call with too few arguments - already reported, but checking goes on - makes the checker itself panic with an index out of bounds" % (arr, k, [(o, sh(x)[:20], sh(y)[:6]) for o, x, y, S in cmp_facts(fn, b)][:3]))
+    ctx.floor("constant indexes into argument lists in the checker", n, 4)
+
+
+def r11_search_offsets_are_added_to_the_base_they_were_found_from(ctx):
+    """memchr / memchr2 return an offset *into the slice they were given*.  The scanner searches `src[P..]` and turns the offset
+    into a position by adding it - to P, the start of that slice, and to nothing else.  Added to another position (the start
+    of the literal instead of the current cursor, which differ once an escape has moved the cursor) the result lands somewhere
+    in the text, possibly inside a multi-byte character, and becomes a span end and the new cursor."""
+    n = 0
+    for fn in lexer_bodies(ctx) + [f for f in ctx.lib.in_file("src/diagnostics.rs")]:
+        searches = {}
+        for c in fn.calls():
+            if not re.search(r"memchr\d?$", c.callee or "") or c.dest is None or c.dest["p"]:
+                continue
+            hay = sh(ne(fn.deep(c.args[-2]))) if len(c.args) >= 2 else ""
+            off = sh(ne(fn.deep(c.args[-1]))) if c.args else "0"
+            m = re.match(r"^index\((.+),Range(?:From)?::Range(?:From)?\{([^,}]+)(?:,.*)?\}\)$", hay)
+            if m:
+                base = m.group(2)
+            else:
+                base = None      # the whole text (offset argument carries the start): positions, not offsets
+            searches[c.dest["l"]] = (base, hay, off, c.block)
+        if not searches:
+            continue
+        # locals that are plain copies of a search result
+        alias = {l: l for l in searches}
+        for _ in range(3):
+            for b in fn.live:
+                for st in fn.blocks[b]["s"]:
+                    a = st["rv"].get("a") if st["rv"]["k"] == "use" else None
+                    pl = (a.get("move") or a.get("copy")) if isinstance(a, dict) else None
+                    if pl is not None and not pl["p"] and pl["l"] in alias and not st["lhs"]["p"]:
+                        alias[st["lhs"]["l"]] = alias[pl["l"]]
+        for b in sorted(fn.live):
+            for st in fn.blocks[b]["s"]:
+                rv = st["rv"]
+                if rv["k"] != "bin" or not rv["op"].startswith("Add"):
+                    continue
+                for x, y in ((rv["a"], rv["b"]), (rv["b"], rv["a"])):
+                    pl = (x.get("move") or x.get("copy")) if isinstance(x, dict) else None
+                    if pl is None or pl["p"] or pl["l"] not in alias:
+                        continue
+                    base, hay, off, sb = searches[alias[pl["l"]]]
+                    if base is None:
+                        continue
+                    n += 1
+                    ctx.touch(fn)
+                    other = sh(ne(fn.expr(y, 3)))
+                    short = parent_fn(fn.id).split("::")[-1]
+                    ordn = sum(1 for r in ctx.records if r["rule"] == ctx.rule and r["instance"].startswith("search-offset|%s#" % short))
+                    if other == base:
+                        ctx.ok("search-offset|%s#%d" % (short, ordn + 1), fn.where(b), "offset found in src[%s..] added to %s" % (base, other))
+                    else:
+                        ctx.bad("search-offset|%s|%s-not-%s" % (short, other[:20], base[:20]), fn.where(b), "%s adds an offset found by searching src[%s..] to `%s`: the offset counts from %s, so the sum is a position only when the two coincide (here they differ as soon as an escape sequence has moved the cursor) - otherwise it can fall inside a multi-byte character and is then used as a span end and as the new cursor" % (short, base, other, base))
+    ctx.floor("search offsets turned into positions", n, 2)
+
+
 RULES = [("C07-R1", r1_cursor_discipline), ("C07-R2", r2_unchecked_reslicing), ("C07-R2b", r2b_byte_reads_in_bounds), ("C07-R2c", r2c_template_reads_in_bounds), ("C07-R5", r5_renderer_boundaries),
-         ("C07-R3", r3_parser_position_free), ("C07-R3b", r3b_parser_spans_are_ordered), ("C07-R4", r4_recovery_progress), ("C07-R8", r8_local_ranges_cover_ids), ("C07-R9", r9_bitset_indexes_agree), ("C07-R5b", r5b_renderer_indexes_stay_inside), ("C07-R10", r10_front_end_memory_is_linear)]
+         ("C07-R3", r3_parser_position_free), ("C07-R3b", r3b_parser_spans_are_ordered), ("C07-R4", r4_recovery_progress), ("C07-R8", r8_local_ranges_cover_ids), ("C07-R9", r9_bitset_indexes_agree), ("C07-R5b", r5b_renderer_indexes_stay_inside), ("C07-R10", r10_front_end_memory_is_linear), ("C07-R12", r12_checker_indexes_follow_a_length_test), ("C07-R11", r11_search_offsets_are_added_to_the_base_they_were_found_from)]
 
 EXPLANATION = (
     "R1 cursor discipline: every write to Lexer.pos is classified by the shape of its right-hand side and must carry its "
